@@ -39,7 +39,19 @@ TDamagedKnown == /\ KnownOpen("KF_C19_OFFSETS")
                  /\ LET e == Rec[l] IN OffsetsLie(e) /\ ~Recovered(e) /\ e.lenient.outcome \in {"value", "error"} /\ e.skip_errors.outcome \in {"value", "error"}
                  /\ NoteKnown("KF_C19_OFFSETS", l)
                  /\ UNCHANGED <<allvars, base>>
-TNext == TBase \/ TScan \/ TChkBase \/ TDamaged \/ TDamagedKnown
+(* Named deviation (open finding): the recovery scan takes `N G obj` found INSIDE STREAM DATA for object headers; a later
+   look-alike replaces the real object.  Accepted only on the base built for it ("decoy"), only when catalog and page count
+   are intact and the objects that differ are the ones whose look-alikes sit in the stream (3 and 12). *)
+DecoyOnly(view) == LET I == Rec[base].intact IN
+                   /\ view.outcome = "value" /\ view.count = I.count /\ view.catalog = I.catalog
+                   /\ DOMAIN view.objects = DOMAIN I.objects
+                   /\ \A k \in DOMAIN I.objects : k \notin {"3", "12"} => view.objects[k] = I.objects[k]
+TDamagedKnownDecoy == /\ KnownOpen("KF_C19_STREAM_HEADERS")
+                      /\ IsEvent("damaged") /\ Rec[base].name = "decoy"
+                      /\ LET e == Rec[l] IN ~Recovered(e) /\ DecoyOnly(e.lenient) /\ DecoyOnly(e.skip_errors)
+                      /\ NoteKnown("KF_C19_STREAM_HEADERS", l)
+                      /\ UNCHANGED <<allvars, base>>
+TNext == TBase \/ TScan \/ TChkBase \/ TDamaged \/ TDamagedKnown \/ TDamagedKnownDecoy
 TraceSpec == TInit /\ [][TNext]_tvars
 Prog == Progress(l)
 =============================================================================
